@@ -17,7 +17,7 @@ RULE = ('(1) parity: for every labelled centre of generated molecules all 24 (6)
         'the reported sign must follow permutation parity computed from inversion counts. (2) exhaustive SMILES spellings of one '
         'centre: all 24 neighbour orders x centre first/middle x @/@@ x H inside/outside the bracket x ring-closure neighbours, and all '
         '/ \\ placements around a double bond, judged by RDKit. (3) inverting one label of an in-domain centre never gives an equal '
-        'molecule; RDKit agrees the two are different. (4) labels written on non-stereogenic centres are dropped. '
+        'molecule; RDKit agrees the two are different. (4) labels written on non-stereogenic centres are dropped. (5) marks written by the library in every style (canonical, random, asymmetric closures, explicit H, Kekule) for labelled molecules up to 18 atoms incl. polycycles are read by RDKit as the same molecule as the spelling of an independent writer. '
         'non-trivial = at least one label survives parsing; distinct by (canonical string, ordering / spelling)')
 ASSUMPTIONS = ['parity from permutation cycle structure (vf/oracles/iso.py), independent of the library translation tables',
                'RDKit is the judge of the absolute convention for SMILES marks; chython supports carbon centres only',
@@ -31,6 +31,7 @@ def shards(tier, seed):
     out = [dict(kind='parity', shard=i, n=n) for i in range(8)]
     out += [dict(kind='spell', part=i, parts=6) for i in range(6)]
     out += [dict(kind='mirror', shard=i, n=n) for i in range(2)]
+    out += [dict(kind='writer', shard=i, n=n) for i in range(4)]
     return out
 
 
@@ -39,13 +40,67 @@ def run_shard(shard, tier, seed):
         cases = [c for i, c in enumerate(spellings()) if i % shard['parts'] == shard['part']]
         return direct_run(ID, cases, check_case)
     specs = molgen.mol_specs(max_atoms=12, corpus_w=4, curated_w=4, graph_w=5, literal_w=1, sym_w=2)
+    if shard['kind'] == 'writer':
+        big = molgen.mol_specs(max_atoms=18, corpus_w=6, curated_w=4, graph_w=5, literal_w=1, sym_w=2)
+        strat = st.fixed_dictionaries({'writer': big, 'fmt': st.sampled_from(['', 'r', 'r', 'a', 'ar', 'rh', 'A', 'rA']),
+                                       'seed': st.integers(0, 2 ** 31)})
+        return hyp_run(ID, strat, check_case, max_examples=shard['n'], seed=seed * 1000 + 200 + shard['shard'])
     key = 'parity' if shard['kind'] == 'parity' else 'mirror'
     strat = st.fixed_dictionaries({key: specs, 'seed': st.integers(0, 2 ** 31)})
     return hyp_run(ID, strat, check_case, max_examples=shard['n'],
                    seed=seed * 1000 + shard['shard'] + (0 if key == 'parity' else 100))
 
 
+def check_writer(case, rec):
+    """marks written by the library (canonical, random order, asymmetric closures, explicit H counts, Kekule bonds) against marks
+    written for the same labelled graph by the independent writer: RDKit must read both as one molecule"""
+    import random as _random
+    from ..oracles import smiles_ref, wl
+    from .c03 import rdkit_same
+    try:
+        m = molgen.build_kekule(case['writer'])
+    except molgen.Reject as e:
+        rec.count(f'generator-reject:{e}')
+        return
+    if not any(a.stereo is not None for _, a in m.atoms()) and not any(b.stereo is not None for *_, b in m.bonds()):
+        rec.count('writer:no-label')
+        return
+    if any(b.order == 8 for *_, b in m.bonds()) or any(m.atom(n).stereo is not None for n in m.stereogenic_allenes) or \
+            any(len(p) > 2 and len(p) % 2 == 0 and m.bond(p[len(p) // 2 - 1], p[len(p) // 2]).stereo is not None
+                for p in m.stereogenic_cumulenes):
+        rec.count('writer:skip (coordinate bonds / allene / cumulene stereo are not judged by RDKit)')
+        return
+    try:
+        col, adj = wl.constitution(m)
+        orb = wl.orbits(col, adj)
+        if wl.gap_a(m, orb) or wl.odd_label_orbit(m, orb) or wl.annulene_stereo(m) or wl.radialene_stereo(m) or \
+                wl.ring_diene_stereo(m):
+            rec.count('writer:skip (pseudo-asymmetric domain or recorded writer findings: judged in C01/C02)')
+            return
+    except TimeoutError:
+        return
+    r = smiles_ref.write_random(m, case['seed'], style=dict(aromatic=False))
+    if r is None:
+        rec.count('writer:reference-writer-not-applicable')
+        return
+    _random.seed(case['seed'])
+    text = format(m, case['fmt']) if case['fmt'] else str(m)
+    same = rdkit_same(text, r[0])
+    if same is None:
+        rec.count('writer:rdkit-not-comparable')
+        return
+    rec.nt((text, case['fmt']))
+    rec.count(f'writer:format-{case["fmt"] or "canonical"}')
+    if not same:
+        rec.fail('writer-marks', f'format {case["fmt"]!r} of {str(m)!r} wrote {text!r}; the independent writer spells the same labelled '
+                                 f'graph {r[0]!r}; RDKit reads them as different molecules', sig=case['fmt'].replace('r', '') or 'plain')
+        return
+    rec.sample('writer', dict(library=text, reference=r[0]), cap=4)
+
+
 def check_case(case, rec):
+    if 'writer' in case:
+        return check_writer(case, rec)
     if 'parity' in case:
         return check_parity(case, rec)
     if 'mirror' in case:
